@@ -11,7 +11,16 @@ package assets
 //@ // pattern */*/* only admits entries at depth >= 3; that every file the walk
 //@ // reports has at least three segments is an assumption about package embed
 //@ // (listed in the evidence), under which the callback cannot panic.
+//@ // every entry that is a file and is reported without error is added, once
+//@ // (no file is skipped, whatever was added before)
+//@ ghostvar addedHereG int
+//@ ghostvar isDirG bool
 //@ func DefaultClassifier$1
+//@   ghostset addedHereG = 0 atentry
+//@   ghostset isDirG = false atentry
+//@   ghostset isDirG = result after IsDir
+//@   ghostset addedHereG = addedHereG + 1 after AddContent
+//@   ensures [every-file-added] old(err) == nil && result == nil && !isDirG ==> addedHereG == 1
 //@   preserves wfClassifier(c)
 //@   assumes err == nil ==> nsep(path, "/") + 1 >= 3
 //@   callreq AddContent requires arg_category == splitSeg(path, "/", 0) && arg_name == splitSeg(path, "/", 1) && arg_variant == splitSeg(path, "/", 2) && bytesOf(arg_content) == embedContent(path)
